@@ -209,6 +209,15 @@ def translate():
         else:
             rv = re.escape(fn[0]["recv_var"])
             body = fn[0]["body"]
+            # the parameter and the local variable may have any name: they are normalised to osType / sep
+            pm = re.search(r"func\s*\([^)]*\)\s*SetOSType\s*\(\s*(\w+)\s+OSType\s*\)", src)
+            pn = pm.group(1) if pm else "osType"
+            lm = re.search(r"\b(\w+) := uint8\(", body)
+            ln = lm.group(1) if lm else "sep"
+            if pn != "osType":
+                body = re.sub(r"\b%s\b" % re.escape(pn), "osType", body)
+            if ln != "sep" and ln != "osType":
+                body = re.sub(r"\b%s\b" % re.escape(ln), "sep", body)
             m = re.fullmatch(
                 r"if osType == OsUnknown \{ osType = CurrentOSType\(\) \} "
                 r"if (.+?) \{ return ErrSetOSType \} "
